@@ -25,7 +25,7 @@ def config_nontrivial(lines):
         return op[2:] != ["C", "p0", "0"]
     if k == "B":
         ups = [l.split(";")[0].split() for l in lines[1:] if l.startswith("U ")]
-        return len(ups) >= 2 or any(u[1] == "3" and u[2:] != ["C", "p0", "0"] for u in ups)
+        return len(ups) >= 2 or any(u[1] == "3" and u[4:] != ["C", "p0", "0"] for u in ups)
     if k == "G":
         return op[2:] != ["-"]
     return False
@@ -62,9 +62,14 @@ class ConfigEngine(HistEngine):
                  "comments, empty, missing values, unbalanced brackets); "
                  "R (15%) protojson.Marshal of a random ApiConfig (nil/empty/full pool incl. max uint32/uint64, unknown enum "
                  "numbers, 0-6 method entries incl. nil entries, nil/empty name lists, overlapping names) parsed back; "
-                 "B (20%) a real gcpBalancer over a fake ClientConn and 1-4 resolver updates (config / nil interface / nil "
-                 "pointer / nil ApiConfig / foreign config type; minSize <= 50) interleaved with overwriting every message "
-                 "passed in, reading back cfg, methodCfg, unresponsiveDetection, NewSubConn/UpdateAddresses counts; "
+                 "B (20%) a real gcpBalancer over a fake ClientConn and 1-7 resolver updates (config / nil interface / nil "
+                 "pointer / nil ApiConfig / foreign config type; minSize <= 50; 0-2 addresses; SubConn creation refused by the "
+                 "fake for the duration of an update or because the address list is empty) interleaved with all or some pool "
+                 "connections reporting Shutdown (with or without Ready first) and with overwriting every message passed in; a "
+                 "quarter of the histories empty the pool between updates, a quarter start with an update during which no "
+                 "connection can be created; after every event cfg, methodCfg, unresponsiveDetection and len(scRefs) are read "
+                 "back and compared with the first accepted config's effective values, NewSubConn calls/successes and "
+                 "UpdateAddresses calls are counted; "
                  "G (5%) NewGCPMultiEndpoint through a real grpc.Dial with a failing dialer, GCPConfig() three times with the "
                  "result and the caller's message overwritten in between, and the JSON grpc hands to ParseConfig for the "
                  "default service config. Distinct by hash of the input tokens; non-trivial = P/Q: JSON value with >= 3 "
@@ -141,5 +146,7 @@ ASSUMPTIONS = {
         "immutability / non-aliasing have no content in a functional model: they are checked on the implementation only "
         "(proto.Equal and structural dump before/after every call, overwrite-everything-afterwards)",
         "min_size <= 50 in balancer histories (each unit is one fake SubConn); larger values only in the parse/render kinds",
+        "balancer histories are serialized calls of UpdateClientConnState / UpdateSubConnState on one goroutine; pool "
+        "connections leave the pool only by reporting Shutdown (no refresh in progress in these histories)",
     ],
 }
